@@ -31,6 +31,12 @@ BASES = {
     "collision_error": base([("items", "seq"), ("item", "none"), ("items_item", "none")]),
     "collision_inherited": base([("item", "none")], inh=[("items", "seq")],
                                 parent_src="@spec_class\nclass Parent:\n    items: List[int]\n"),
+    "collision_parent_scalar": base([("items", "seq")], inh=[("item", "none")],
+                                    parent_src="@spec_class\nclass Parent:\n    item: int\n"),
+    "collision_redeclare": base([("items", "seq")], inh=[("item", "none"), ("items", "seq")],
+                                parent_src="@spec_class\nclass Parent:\n    item: int\n    items: List[int]\n"),
+    "collision_two_levels": base([("x", "none")], inh=[("item", "none"), ("items", "seq")],
+                                 parent_src="@spec_class\nclass GrandParent:\n    items: List[int]\n\n@spec_class\nclass Parent(GrandParent):\n    item: int\n"),
     "private_in_attrs": base([("x", "none")], body=["x"], o=opts(attrs=["_secret"])),
 }
 KINDS = ["function", "staticmethod", "property", "value"]
@@ -114,6 +120,10 @@ def run_case(case):
     ns = {"__name__": f"deco_{name}"}
     exec(class_source(name, extra, kind), ns)
     cls = ns["A"]
+    # helper names the parents already provide (first use through the subclass may install the built method on the subclass too)
+    for base_ in cls.__mro__[1:]:
+        getattr(base_, "__spec_class__", None)          # parents bootstrapped: their helper names are what A inherits
+    inherited_helpers = sorted(n for base_ in cls.__mro__[1:] for n in vars(base_) if n.startswith(("with_", "update_", "transform_", "reset_", "without_")))
     snap0 = dict(cls.__dict__)
     declared = sorted(snap0)
     watch = {n: v for n, v in snap0.items() if n not in SKIP_USER and not isinstance(v, (Attr, dataclasses.Field))}
@@ -146,7 +156,7 @@ def run_case(case):
     except Exception as e:  # noqa: BLE001
         res = type(e).__name__
         snap("failed")
-    return {"base": name, "extra": extra, "kind": kind, "eager": eager, "D": dict(description(name), body=sorted(set(description(name)["body"]) | ({extra} if extra != "-" else set()))),
+    return {"base": name, "extra": extra, "kind": kind, "eager": eager, "D": dict(description(name), inh_helpers=sorted(set(description(name)["inh_helpers"]) | set(inherited_helpers)), body=sorted(set(description(name)["body"]) | ({extra} if extra != "-" else set()))),
             "declared": declared, "phases": phases, "res": res}
 
 
